@@ -279,4 +279,167 @@ theorem array_copy (n : Nat) (d : Bytes) (h : d.length ≤ n) : toArray n d = d 
       rw [List.getElem_append_right (by omega)]
       simp
 
+/-! ### split -/
+
+theorem ofNat_mod256 (n : Nat) : UInt8.ofNat (n % 256) = UInt8.ofNat n := by
+  apply UInt8.toNat_inj.mp
+  simp [UInt8.toNat_ofNat']
+
+theorem key_byte (dk y : Nat) : UInt8.ofNat ((dk ^^^ y) % 256) = UInt8.ofNat dk ^^^ UInt8.ofNat y := by
+  rw [ofNat_mod256, UInt8.ofNat_xor]
+
+theorem encFrom_append (op : Op) (key : UInt8) : ∀ (a b : Bytes) (off : Nat),
+    encFrom op key off (a ++ b) = encFrom op key off a ++ encFrom op key (off + a.length) b
+  | [], b, off => by simp [encFrom]
+  | x :: a, b, off => by
+    simp only [List.cons_append, encFrom, List.length_cons]
+    rw [encFrom_append op key a b (off + 1)]
+    have : off + 1 + a.length = off + (a.length + 1) := by omega
+    rw [this]
+
+theorem encChunks_flatten (op : Op) (key : UInt8) : ∀ (cs : List Bytes) (off : Nat),
+    (encChunks op key off cs).flatten = encFrom op key off cs.flatten
+  | [], off => by simp [encChunks, encFrom]
+  | c :: cs, off => by
+    simp only [encChunks, List.flatten_cons]
+    rw [encChunks_flatten op key cs, encFrom_append]
+
+theorem encFrom_length (op : Op) (key : UInt8) : ∀ (d : Bytes) (off : Nat), (encFrom op key off d).length = d.length
+  | [], _ => rfl
+  | _ :: r, off => by simp [encFrom, encFrom_length op key r]
+
+/-- the decrypt case undoes `encryptChunks`, when the run-time key agrees with the encoder's key in its low byte -/
+theorem decrypt_undo (op : Op) (key : UInt8) (dk : Nat) (hk : UInt8.ofNat dk = key) : ∀ (d : Bytes) (off : Nat),
+    ((encFrom op key off d).zipIdx off).map (fun (p : UInt8 × Nat) => op.rev.eval p.1 (UInt8.ofNat ((dk ^^^ p.2) % 256))) = d
+  | [], _ => rfl
+  | b :: r, off => by
+    simp only [encFrom, List.zipIdx_cons, List.map_cons]
+    rw [decrypt_undo op key dk hk r (off + 1), key_byte, hk, rev_eval]
+
+
+/-- the run-time `decryptKey` (an int) after `k` iterations of the loop -/
+def dkNat (keyInit : Nat) (idx : List Nat) : Nat → Nat
+  | 0 => keyInit
+  | k + 1 => dkNat keyInit idx k ^^^ (idx.getD k 0 * k)
+
+/-- ... agrees in its low byte with the key the encoder computed in byte arithmetic -/
+theorem dk_low_byte (ki : UInt8) (idx : List Nat) : ∀ k, UInt8.ofNat (dkNat ki.toNat idx k) = splitKeyUpTo ki idx k
+  | 0 => by simp [dkNat, splitKeyUpTo]
+  | k + 1 => by simp only [dkNat, splitKeyUpTo, UInt8.ofNat_xor, dk_low_byte ki idx k]
+
+theorem find_case : ∀ (l : List Case) (_ : (l.map (·.index)).Nodup) (k : Nat) (hk : k < l.length),
+    l.find? (·.index == l[k].index) = some l[k]
+  | [], _, k, hk => by simp at hk
+  | c :: t, nd, 0, _ => by simp
+  | c :: t, nd, k + 1, hk => by
+    simp only [List.map_cons, List.nodup_cons, List.mem_map] at nd
+    have hk' : k < t.length := by simpa using hk
+    have hne : c.index ≠ t[k].index := fun e => nd.1 ⟨t[k], List.getElem_mem hk', e.symm⟩
+    have : (c.index == t[k].index) = false := by simpa using hne
+    simp only [List.getElem_cons_succ, List.find?_cons, this]
+    exact find_case t nd.2 k hk'
+
+theorem chunkLit_eval (keys : List ExtKey) (e : Bytes) (ops : List KeyOp) (choice : Option (Op × Nat × Nat)) :
+    (chunkLit keys e ops choice).eval keys = e := by
+  unfold chunkLit
+  split
+  · simp [Chunk.eval, byteexpr_roundtrip]
+  · simp [Chunk.eval, slicelit_roundtrip]
+
+theorem getD_ne_of_nodup (idx : List Nat) (nd : idx.Nodup) (a b : Nat) (ha : a < idx.length) (hb : b < idx.length) (hab : a ≠ b) :
+    idx.getD a 0 ≠ idx.getD b 0 := by
+  simp only [List.getD_eq_getElem?_getD, List.getElem?_eq_getElem ha, List.getElem?_eq_getElem hb, Option.getD_some]
+  exact fun e => hab ((List.getElem_inj nd).mp e)
+
+theorem encChunks_length (op : Op) (key : UInt8) : ∀ (cs : List Bytes) (off : Nat), (encChunks op key off cs).length = cs.length
+  | [], _ => rfl
+  | _ :: cs, off => by simp [encChunks, encChunks_length op key cs]
+
+theorem take_succ_flatten (l : List Bytes) (k : Nat) (hk : k < l.length) :
+    (l.take (k + 1)).flatten = (l.take k).flatten ++ l.getD k [] := by
+  rw [List.take_add_one, List.flatten_append, List.getD_eq_getElem?_getD, List.getElem?_eq_getElem hk]
+  simp
+
+/-- **split round trip**: for EVERY chunking of the data, every permutation of case indexes, every initial key,
+operator and ext-key choice, the emitted state machine terminates and yields the original bytes -/
+theorem split_roundtrip (keys : List ExtKey) (p : SplitPlan)
+    (hlen : p.indexes.length = p.chunks.length + 2) (nd : p.indexes.Nodup) :
+    (buildSplit keys p).eval keys = some p.chunks.flatten := by
+  -- abbreviations
+  generalize hn : p.chunks.length = n at hlen
+  generalize hs : buildSplit keys p = s
+  have hkey : splitKeyUpTo p.keyInit p.indexes (n + 1) = UInt8.ofNat (dkNat p.keyInit.toNat p.indexes (n + 1)) :=
+    (dk_low_byte _ _ _).symm
+  let enc := encChunks p.op (splitKeyUpTo p.keyInit p.indexes (n + 1)) 0 p.chunks
+  have henc_len : enc.length = n := by simp [enc, encChunks_length, hn]
+  have s_op : s.op = p.op.rev := by rw [← hs]; rfl
+  have s_start : s.start = p.indexes.getD 0 0 := by rw [← hs]; rfl
+  have s_dec : s.decryptIndex = p.indexes.getD n 0 := by rw [← hs]; simp [buildSplit, hn]
+  have s_exit : s.exitIndex = p.indexes.getD (n + 1) 0 := by rw [← hs]; simp [buildSplit, hn]
+  have s_key : s.decryptKey.eval keys = p.keyInit := by rw [← hs]; simp [buildSplit, byteexpr_roundtrip]
+  have s_cases : s.cases = (List.range n).map fun i =>
+      ({ index := p.indexes.getD i 0, next := p.indexes.getD (i + 1) 0,
+         chunk := chunkLit keys (enc.getD i []) (p.sliceOps.getD i []) (p.byteChoices.getD i none) } : Case) := by
+    rw [← hs]; simp [buildSplit, hn, enc]
+  have cases_len : s.cases.length = n := by rw [s_cases]; simp
+  have cases_nd : (s.cases.map (·.index)).Nodup := by
+    rw [s_cases, List.map_map]
+    rw [List.nodup_iff_pairwise_ne, List.pairwise_map]
+    refine List.Pairwise.imp_of_mem ?_ (List.nodup_range (n := n))
+    intro a b ha hb hab
+    simp only [Function.comp]
+    exact getD_ne_of_nodup _ nd a b (by have := List.mem_range.mp ha; omega) (by have := List.mem_range.mp hb; omega) hab
+  have case_at : ∀ k (hk : k < n), s.cases.find? (·.index == p.indexes.getD k 0) =
+      some ({ index := p.indexes.getD k 0, next := p.indexes.getD (k + 1) 0, chunk := chunkLit keys (enc.getD k []) (p.sliceOps.getD k []) (p.byteChoices.getD k none) } : Case) := by
+    intro k hk
+    have hk' : k < s.cases.length := by omega
+    have hget : s.cases[k] = ({ index := p.indexes.getD k 0, next := p.indexes.getD (k + 1) 0, chunk := chunkLit keys (enc.getD k []) (p.sliceOps.getD k []) (p.byteChoices.getD k none) } : Case) := by
+      simp [s_cases]
+    have := find_case s.cases cases_nd k hk'
+    rw [hget] at this
+    exact this
+  -- the walk
+  have walk : ∀ m k, k + m = n → ∀ fuel, fuel ≥ m + 2 →
+      splitRun s keys fuel (p.indexes.getD k 0) k (dkNat p.keyInit.toNat p.indexes k) (enc.take k).flatten =
+        some (decryptAll s.op (dkNat p.keyInit.toNat p.indexes (n + 1)) enc.flatten) := by
+    intro m
+    induction m with
+    | zero =>
+      intro k hk fuel hf
+      have hkn : k = n := by omega
+      subst hkn
+      obtain ⟨f, rfl⟩ : ∃ f, fuel = f + 1 := ⟨fuel - 1, by omega⟩
+      obtain ⟨f2, rfl⟩ : ∃ f2, f = f2 + 1 := ⟨f - 1, by omega⟩
+      have hne : p.indexes.getD k 0 ≠ p.indexes.getD (k + 1) 0 := getD_ne_of_nodup _ nd _ _ (by omega) (by omega) (by omega)
+      have e1 : (p.indexes.getD k 0 == s.exitIndex) = false := by rw [s_exit]; simpa using hne
+      have e2 : (p.indexes.getD k 0 == s.decryptIndex) = true := by rw [s_dec]; simp
+      have e3 : (s.exitIndex == s.exitIndex) = true := by simp
+      have htake : (enc.take k).flatten = enc.flatten := by rw [List.take_of_length_le (by omega)]
+      simp only [splitRun, e1, e2, e3, if_true, Bool.false_eq_true, if_false, htake, dkNat]
+    | succ m ih =>
+      intro k hk fuel hf
+      obtain ⟨f, rfl⟩ : ∃ f, fuel = f + 1 := ⟨fuel - 1, by omega⟩
+      have hkn : k < n := by omega
+      have hne1 : p.indexes.getD k 0 ≠ p.indexes.getD (n + 1) 0 := getD_ne_of_nodup _ nd _ _ (by omega) (by omega) (by omega)
+      have hne2 : p.indexes.getD k 0 ≠ p.indexes.getD n 0 := getD_ne_of_nodup _ nd _ _ (by omega) (by omega) (by omega)
+      have e1 : (p.indexes.getD k 0 == s.exitIndex) = false := by rw [s_exit]; simpa using hne1
+      have e2 : (p.indexes.getD k 0 == s.decryptIndex) = false := by rw [s_dec]; simpa using hne2
+      simp only [splitRun, e1, e2, Bool.false_eq_true, if_false, case_at k hkn, chunkLit_eval]
+      have := ih (k + 1) (by omega) f (by omega)
+      rw [take_succ_flatten enc k (by omega)] at this
+      simpa [dkNat] using this
+  unfold SplitDec.eval
+  rw [s_start, s_key, cases_len]
+  have := walk n 0 (by omega) (n + 3) (by omega)
+  simp only [List.take_zero, List.flatten_nil, dkNat] at this
+  rw [this, s_op]
+  congr 1
+  have hflat : enc.flatten = encFrom p.op (splitKeyUpTo p.keyInit p.indexes (n + 1)) 0 p.chunks.flatten := encChunks_flatten _ _ _ _
+  rw [hflat]
+  unfold decryptAll
+  exact decrypt_undo p.op _ _ hkey.symm p.chunks.flatten 0
+
+/-- non-vacuity: a concrete plan meets the hypotheses and decodes -/
+example : (buildSplit [] { chunks := [[1, 2], [3], [4, 5, 6]], indexes := [3, 0, 4, 1, 2], keyInit := 77, op := .add, sliceOps := [], byteChoices := [], keyChoice := none }).eval [] = some [1, 2, 3, 4, 5, 6] := by decide
+
 end GV.Props.C05
